@@ -110,7 +110,92 @@ func (c *Ctx) randomLoops(fn *ssa.Function) []*randLoop {
 			}
 		}
 	})
+	// a loop over a slice that holds the elements of a map in iteration order:
+	// slices.Collect(maps.Keys(m)), reflect.Value.MapKeys(), ... and not sorted before the loop
+	seenHdr := map[*ssa.BasicBlock]bool{}
+	core.EachInstr(fn, func(i ssa.Instruction) {
+		ia, ok := i.(*ssa.IndexAddr)
+		if !ok {
+			return
+		}
+		if _, isSlice := ia.X.Type().Underlying().(*types.Slice); !isSlice {
+			return
+		}
+		// index is the loop variable of a range loop: a phi, or phi+1
+		var phi *ssa.Phi
+		switch ix := ia.Index.(type) {
+		case *ssa.Phi:
+			phi = ix
+		case *ssa.BinOp:
+			phi, _ = ix.X.(*ssa.Phi)
+		}
+		if phi == nil {
+			return
+		}
+		src := c.randomSliceSource(ia.X)
+		if src == nil || c.sortedBefore(fn, src, ia) {
+			return
+		}
+		hdr := phi.Block()
+		if seenHdr[hdr] {
+			return
+		}
+		seenHdr[hdr] = true
+		l := &randLoop{fn: fn, at: src, kind: "range over a slice in map-iteration order", header: hdr}
+		l.blocks = loopBlocks(hdr)
+		core.EachInstr(fn, func(j ssa.Instruction) {
+			if ld, ok := j.(*ssa.UnOp); ok && ld.Op == token.MUL {
+				if ia2, ok := ld.X.(*ssa.IndexAddr); ok && sharesSource(ia2.X, ia.X) && l.blocks[ld.Block()] {
+					l.elems = append(l.elems, ld)
+				}
+			}
+		})
+		out = append(out, l)
+	})
 	return out
+}
+
+// randomSliceSource: the call that produced slice v in map-iteration order, if any.
+func (c *Ctx) randomSliceSource(v ssa.Value) ssa.Instruction {
+	for _, s := range traceSources(v) {
+		call, ok := s.(*ssa.Call)
+		if !ok {
+			continue
+		}
+		switch core.CalleeKey(&call.Call) {
+		case "reflect.Value.MapKeys":
+			return call
+		case "slices.Collect":
+			if len(call.Call.Args) == 1 && c.iteratorIsRandom(call.Call.Args[0]) {
+				return call
+			}
+		case "slices.AppendSeq":
+			if len(call.Call.Args) == 2 && c.iteratorIsRandom(call.Call.Args[1]) {
+				return call
+			}
+		}
+	}
+	return nil
+}
+
+// sortedBefore: the slice produced by src is sorted by a call that dominates the use.
+func (c *Ctx) sortedBefore(fn *ssa.Function, src ssa.Instruction, use ssa.Instruction) bool {
+	sv, ok := src.(ssa.Value)
+	if !ok {
+		return false
+	}
+	sorted := false
+	core.EachInstr(fn, func(i ssa.Instruction) {
+		call, ok := i.(*ssa.Call)
+		if !ok || len(call.Call.Args) == 0 {
+			return
+		}
+		key := core.CalleeKey(&call.Call)
+		if (strings.HasPrefix(key, "slices.Sort") || strings.HasPrefix(key, "sort.")) && flowsTo(sv, call.Call.Args[0]) && core.Dominates(call, use) {
+			sorted = true
+		}
+	})
+	return sorted
 }
 
 // iteratorIsRandom: the iterator value comes from reflect Seq/Seq2, maps.Keys/Values/All,
@@ -834,7 +919,7 @@ func (c *Ctx) ruleOrderInsensitive(rule string, closures ...string) {
 		}
 	}
 	c.R.Info["randomised_iterations_"+strings.Join(closures, "+")] = n
-	min := map[string]int{"EV+RES+MAR": 20, "MAR": 3, "INF": 2}[strings.Join(closures, "+")]
+	min := map[string]int{"EV+RES+MAR": 8, "MAR": 1, "INF": 1}[strings.Join(closures, "+")]
 	c.R.Floor(rule, "order-randomised iterations in "+strings.Join(closures, "+"), n, min)
 }
 
